@@ -4,6 +4,7 @@ pub mod inject;
 pub mod journal;
 pub mod report;
 pub mod sandbox;
+pub mod scopeapi;
 pub mod spy;
 pub mod zoo;
 
